@@ -71,6 +71,8 @@ def frame(opname, msgf, senderf):
         W = HubWorld(ctx, n_validators=1, n_delegations=1)
         W.closed = [('P', b'history_map'), ('B', b'v2_wait'), ('B', b'wait')]
         W.install()
+        from checks.generic import raw_scenario
+        raw_scenario(W, 'execute', msgf(W), senderf(W), querier=hub_querier_template(W))
         nok = 0
         for st, res in W.execute(msgf(W), senderf(W)):
             if not is_ok(res):
@@ -103,6 +105,10 @@ def replay_any(v, run_scenario):
         op = OPS4[int(v['model'].get('__op', 0))]
     else:
         op = key.split(':')[0]
+    if op in ('update_global_index', 'redelegate_proxy') and 'scenario_t' in v:
+        from smir.replay import generic_replay
+        import sys
+        return generic_replay(sys.modules[__name__])(v, run_scenario)
     if op not in OPS4:
         return {'status': 'unavailable', 'detail': 'no scenario builder for ' + op}
     scn = hub_scenario(m, op)
@@ -134,6 +140,29 @@ def replay_any(v, run_scenario):
         if op == 'bond_rewards' and (e['mint_b'] or e['mint_s']):
             bad.append('bond_rewards minted tokens')
     return {'status': 'reproduced' if bad else 'mismatch', 'scenario': scn, 'output': out, 'oracle': bad}
+
+
+def ORACLE(v, scn, out):
+    """frame obligations: pools, pending requests and token supplies untouched"""
+    from checks.c01 import decode_hub
+    res = out.get('result', {})
+    if 'ok' not in res:
+        return []
+    pre, post = decode_hub(scn['storage']), decode_hub(out.get('storage', []))
+    what = (v.get('key') or ':').split(':')[1]
+    s0, s1 = pre['items'][b'\x00\x05state'], post['items'][b'\x00\x05state']
+    b0, b1 = pre['items'][b'\x00\x0dcurrent_batch'], post['items'][b'\x00\x0dcurrent_batch']
+    bad = []
+    if what == 'pools' and (s0['total_bond_bsei_amount'], s0['total_bond_stsei_amount']) != (s1['total_bond_bsei_amount'], s1['total_bond_stsei_amount']):
+        bad.append('pools changed')
+    if what == 'requests' and (b0['requested_bsei_with_fee'], b0['requested_stsei']) != (b1['requested_bsei_with_fee'], b1['requested_stsei']):
+        bad.append('pending requests changed')
+    if what == 'supply':
+        for sm in res['ok']['messages']:
+            m_ = sm['msg']
+            if 'wasm' in m_ and m_['wasm']['execute']['contract_addr'] in ('bsei_token', 'stsei_token'):
+                bad.append('token message %r' % m_['wasm']['execute']['msg'])
+    return bad if what in ('pools', 'requests', 'supply') else None
 
 
 REPLAY = {'*': replay_any}
